@@ -215,6 +215,10 @@ def make_net(rng):
     if rng.random() < 0.5:
         with core.quiet():
             c = ct.util.characteristic.Characteristic(net, [0.9, 1.0, 1.1], [1., 0., -1.])
+            if rng.random() < 0.6:
+                sc_ = ct.util.characteristic.SplineCharacteristic(net, [0.9, 1.0, 1.1, 1.2], [1., 0.5, -1., -1.5])
+                if rng.random() < 0.7:
+                    sc_(1.05)          # evaluated once: the cached interpolator exists when the net is saved
             ct.ConstControl(net, "load", "p_mw", int(net.load.index[0]), level=rng.choice([0, 1]), order=1)
     if rng.random() < 0.3:
         net["my_dict"] = {"flag": np.bool_(False), "pair": (1, 2.5), "ids": {1, 2}}
@@ -259,7 +263,17 @@ def compare_nets(a, b, tol=1e-14, value_only=False):
                 for pos, i in enumerate(x.index):             # positional: net.group legitimately repeats index values
                     u, v = x[cx].iloc[pos], y[cy].iloc[pos]
                     if k == "controller" and cx == "object" or k == "characteristic" and cx == "object":
-                        if not (u == v):
+                        if k == "characteristic" and callable(u) and type(u).__name__ != "Characteristic":
+                            # (spline characteristics keep a cached interpolator that is excluded from the file by design:
+                            # compared by type, support points and value)
+                            try:
+                                if type(u) is not type(v) or list(u.x_vals) != list(v.x_vals) or list(u.y_vals) != list(v.y_vals):
+                                    out.append(f"characteristic[{i}]: support points differ after the round trip")
+                                elif abs(float(u(1.03)) - float(v(1.03))) > 1e-12:
+                                    out.append(f"characteristic[{i}]: value at 1.03 differs after the round trip")
+                            except Exception as e_:       # noqa
+                                out.append(f"characteristic[{i}]: evaluation after the round trip raised {type(e_).__name__}: {str(e_)[:80]}")
+                        elif not (u == v):
                             out.append(f"{k}[{i}]: object differs after the round trip")
                         continue
                     un, vn = (u is None or (isinstance(u, float) and math.isnan(u)) or u is pd.NA), \
